@@ -29,13 +29,14 @@ Require Import V.C12.Model.
 def static_part(ctx, failures):
     """programs with static clones: implementation vs kernel model on the expanded program (Coq expansion),
     and implementation with clones vs implementation with ORIGINAL copies (the bisimulation statement)"""
-    n = ctx.n(70, 500)
+    n = ctx.n(50, 450)
     maxticks = ctx.n(18, 30)
-    g = cgen.CloneGen(ctx.rng, features={"rel": True, "via": True, "nestclone": True},
+    g = cgen.CloneGen(ctx.rng, features={"rel": True, "via": True, "nestclone": True, "marker": True},
                       ticks=(0.125, 0.1), sizes=(2, 3))
     cases, metas = [], []
-    for i in range(n):
-        p = g.program()
+    ndirected = ctx.n(16, 120)
+    for i in range(n + ndirected):
+        p = g.program() if i < n else g.marker_program()
         try:
             lay = clones.Layout(p)
         except ValueError:
@@ -81,7 +82,8 @@ def static_part(ctx, failures):
         nested = any(r["parent"] in lay.by_name for r in lay.inst)
         ctx.case({"flo": flo, "instances": len(lay.inst), "events": len(ob["trace"]), "clone_events": nclone_ev},
                  nontrivial=nclone_ev > 4 and len(lay.inst) >= 2,
-                 kind="static,inst=%d,nested=%s,rel=%d" % (min(len(lay.inst), 4), nested, min(p.get("nrel", 0), 1)))
+                 kind=("static" if i < n else "same-tag-markers") +
+                 ",inst=%d,nested=%s,rel=%d" % (min(len(lay.inst), 4), nested, min(p.get("nrel", 0), 1)))
         cases.append((clones.coq_run_expr(p, None, maxticks, lay), clones.coq_obs(ob)))
         metas.append((flo, ob))
     bad = ctx.coq_cases(clones.COQ_HEADER, "(obs_eqb FOps)", cases, shard=ctx.n(5, 12), name="c12static")
@@ -209,11 +211,18 @@ def run(ctx):
         "reared clones in (c) are closed (they read only their own relative variable and clocks) so that `alone under "
         "the same inputs` is well defined; their first activation is compared",
     ]
+    import time
+    t0 = time.time()
     ctx.coq_build("C12/Props.v")
+    t1 = time.time()
     failures = []
     static_part(ctx, failures)
+    t2 = time.time()
     tag_part(ctx, failures)
+    t3 = time.time()
     rear_part(ctx, failures)
+    ctx.extra["phase_seconds"] = {"coq_build": round(t1 - t0, 1), "static": round(t2 - t1, 1), "tags": round(t3 - t2, 1),
+                                  "rear": round(time.time() - t3, 1)}
     seen = set()
     for f in failures:
         if f["key"] in seen:
